@@ -179,10 +179,27 @@ func contain(e *tlib.Emitter) {
 	e.P("/-- flv Muxer.videoMetaReady: conditions and return expressions (absent on the pinned tree) -/")
 	e.P("def flvVideoMetaReadyConds : List String := %s", tlib.LeanStrList(df.Conds(vmr)))
 	e.P("def flvVideoMetaReadyReturns : List String := %s", tlib.LeanStrList(vmrRets))
-	waits := len(seq) > 0 && seq[0] == "if !muxer.videoMetaReady() { continue }" &&
-		len(vmrRets) == 2 && vmrRets[0] == "return len(vm.Vps) > 0 && len(vm.Sps) > 0 && len(vm.Pps) > 0" &&
-		vmrRets[1] == "return len(vm.Sps) >= 4 && len(vm.Pps) > 0" && has(df.Conds(vmr), "if vm.Codec == \"H265\"")
+	// two recognised shapes of videoMetaReady: (old) parameter sets present, SPS of >= 4 bytes;
+	// (new) additionally the SPS validated (Width != 0) or decodable
+	eq := func(a, b []string) bool {
+		if len(a) != len(b) {
+			return false
+		}
+		for i := range a {
+			if a[i] != b[i] {
+				return false
+			}
+		}
+		return true
+	}
+	oldShape := eq(vmrRets, []string{"return len(vm.Vps) > 0 && len(vm.Sps) > 0 && len(vm.Pps) > 0", "return len(vm.Sps) >= 4 && len(vm.Pps) > 0"}) &&
+		eq(df.Conds(vmr), []string{"if vm.Codec == \"H265\""})
+	newShape := eq(vmrRets, []string{"return false", "return true", "return sps.Decode(vm.Sps) == nil", "return false", "return true", "return sps.Decode(vm.Sps) == nil"}) &&
+		eq(df.Conds(vmr), []string{"if vm.Codec == \"H265\"", "if len(vm.Vps) == 0 || len(vm.Sps) == 0 || len(vm.Pps) == 0", "if vm.Width != 0", "if len(vm.Sps) < 4 || len(vm.Pps) == 0", "if vm.Width != 0"})
+	waits := len(seq) > 0 && seq[0] == "if !muxer.videoMetaReady() { continue }" && (oldShape || newShape)
 	e.P("def flvWaitsForParameterSets : Bool := %s", tlib.LeanBool(waits))
+	e.P("/-- videoMetaReady wants the SPS validated (Width != 0) or decodable before the sequence headers are built -/")
+	e.P("def flvValidatesSps : Bool := %s", tlib.LeanBool(waits && newShape))
 	conds("flvH264PacketizeConds", "av/format/flv/h264_packetizer.go", "h264Packetizer", "Packetize")
 	// TS
 	_, cta := conds("tsAacPacketizeConds", "av/format/mpegts/aac_packetizer.go", "aacPacketizer", "Packetize")
